@@ -2,6 +2,7 @@ import CnlDriver.CS
 import CnlModel.Static
 import CnlSpec.Rounding
 import CnlModel.RoundCvt
+import CnlModel.OverflowFloat
 import CnlDriver.FloatIO
 /-! `C11` table: static_number operations and short histories. -/
 namespace Cnl.Drv
@@ -135,9 +136,11 @@ def checkC11 (toks : List String) (res : String) : Option Verdict :=
     let q := f.mul x (ScaledFloat.powerValueF f 2 (-e))
     let hi : Int := 2^d - 1
     let c : Cfg := ⟨mode, tag⟩
+    -- the destination of the overflow test is the elastic_integer<d> (symmetric limits)
+    let dl := Overflow.DestLimits.elastic d
     let m : Res SNum :=
-      if fCmp .gt q (f.ofInt hi) then (narrowDigits c d (hi + 1)).map (fun v => ⟨d, e, v⟩)
-      else if fCmp .lt q (f.ofInt (-hi)) then (narrowDigits c d (-hi - 1)).map (fun v => ⟨d, e, v⟩)
+      if Overflow.isOverflowConvertFloat f dl true q then (narrowDigits c d (hi + 1)).map (fun v => ⟨d, e, v⟩)
+      else if Overflow.isOverflowConvertFloat f dl false q then (narrowDigits c d (-hi - 1)).map (fun v => ⟨d, e, v⟩)
       else
         match Elastic.repTy d narrowest with
         | none => .ill "digits exceed the widest integer"
@@ -159,15 +162,9 @@ def checkC11 (toks : List String) (res : String) : Option Verdict :=
       | _, _, _ => false
     let halfF := f.ofDyadic false 1 (-1)
     let halfL := x87ext.ofDyadic false 1 (-1)
-    let flagged := fCmp .gt q (f.ofInt hi) || fCmp .lt q (f.ofInt (-hi))
-    let idealSignals := match x.toRat? with
-      | some r =>
-        let scaled : Rat := r * (if e ≤ 0 then ((2 : Rat) ^ (-e).toNat) else 1 / ((2 : Rat) ^ e.toNat))
-        scaled ≥ ((hi : Rat) + (1/2 : Rat)) || scaled ≤ -((hi : Rat) + (1/2 : Rat)) || scaled > (hi : Rat) || scaled < -(hi : Rat)
-      | none => false
+    -- (float_at_limit_not_flagged is repaired: no class; a recurrence is a violation)
     let cls :=
-      if !flagged && idealSignals then "C11.float_at_limit_not_flagged"
-      else if mode == .tpi && addInexact f q halfF then "C11.float_rounding_inherits_C09"
+      if mode == .tpi && addInexact f q halfF then "C11.float_rounding_inherits_C09"
       else if mode == .nrst && addInexact x87ext (x87ext.cvt q) (if fCmp .ge q (f.ofInt 0) then halfL else halfL.neg) then "C11.float_rounding_inherits_C09"
       else ""
     some { model := showRes showSN m, spec := judge tag ideal d res, cls := cls, branch := "fcvt/" ++ toks[1]! ++ "/" ++ fm, nontrivial := true }
